@@ -87,8 +87,15 @@ func loadReplay(path string) (*ReplayFile, *gspec.Grammar, error) {
 
 // savedReplays lists replays/<id>/*.json (witnesses kf-*.json and regressions).
 func savedReplays(r *Run, id string) []string {
-	m, _ := filepath.Glob(filepath.Join(r.Root, "replays", id, "*.json"))
-	sort.Strings(m)
+	all, _ := filepath.Glob(filepath.Join(r.Root, "replays", id, "*.json"))
+	sort.Strings(all)
+	var m []string
+	for _, f := range all {
+		// a property checked by two engines keeps the replays of both in one directory
+		if replayEngine(f) == "batch" {
+			m = append(m, f)
+		}
+	}
 	return m
 }
 
